@@ -160,6 +160,9 @@ var restoreCmd = &cobra.Command{
 		if len(args) == 0 {
 			return errors.New("fatal: you must specify path(s) to restore")
 		}
+		if err := errIfEmptyPath(args); err != nil {
+			return err
+		}
 		args = toWorkTreePaths(args)
 
 		// get staged option
